@@ -2,9 +2,9 @@ from .core import BASE_TRUST
 
 META = {
     "category": "proof",
-    "text": "(texts read as numbers are INSIDE the model since Model/ParseFloat.lean: option.TrimSpace on arbitrary bytes incl. the Unicode White_Space runes, strconv.ParseInt, strconv.ParseFloat with special values, decimal and hexadecimal mantissas, the exponent clamp, underscoreOK, correct rounding to binary64, overflow = NULL; theorems int_text_float_agrees — every text ParseInt accepts as i is accepted by ParseFloat as float64(i), so the integer and the float rung of the ladder agree —, text_profile_int_float, cast_integer_text, cast_float_text; tied by stream op c06.sflt: ToIntegerStrictly / ToFloat / ToInteger / ToBoolean / Ternary of 8000+ spellings per run incl. rounding boundaries, denormals, overflow, hex floats, underscores, Unicode spaces, mutations) (the comparison core of lib/value/comparison.go is TRANSLATED into Lean on every run by extract/cmpfacts — compareInteger, compareFloat, the datetime / boolean / string rungs and the ladder order of CompareCombinedly, the six operators as functions of its result, the dispatch of Compare, Equivalent, the order of Identical — and proved equal to the model: gen_compareInteger_eq, gen_compareFloat_eq, gen_rung*_eq, cmp_eq_gen, gen_ops_eq_model, gen_dispatch, gen_equivalent_shape, gen_identical_ladder) Lean 4 theorems over a model of the comparison ladder, ternary logic, BETWEEN/IN/ANY/ALL/IS/CASE and arithmetic, for all coercion profiles and all lists (incl. the empty set a sub-query can produce: any_empty / all_empty), exactness of the float image of integers and of float +, -, * on integers below 2^53 (float_int_*_agree), casts; model tied to /repo by a differential correspondence run (direct library calls and SELECT text) on every run",
+    "text": "(floats written as text are INSIDE the model since Model/FormatFloat.lean: strconv.FormatFloat(x, fmt, -1, 64) for fmt = 'f' (value.Float64ToStr, STRING(float), the key payload, the encoders), 'g' (scientific notation) and 'e' (ENOTATION) — NaN / +Inf / -Inf / ±0 and the shortest digits that read back, the closest among the shortest, by exact integer arithmetic on x*2^1074, laid out as %f / %e / %g; theorems of Props/C06Fmt.lean for ALL values: fmt_parse_roundtrip / fmtG_ / fmtE_ (ParseFloat of the text is x, for every binary64 value — proved through the exact decimal expansion n*5^1074/10^1074 that stands behind every candidate text, each candidate being checked by the model's own ParseFloat), fmt_injective / fmtG_ / fmtE_ (on the whole of FVal), fmt_bytes, fmt_clean (neither ':' nor '\\'), fmt_int_agrees (FormatFloat(float64(i)) = FormatInt(i) for |i| < 2^53), isDouble_fin_iff (the binary64 values among fin n are exactly the m*2^e with m < 2^53, e <= 2045), isDouble_ofInt, fmt_parse_roundtrip_counterexample (why the hypothesis is there); tied by stream op c06.ffmt: the three texts of 17000+ binary64 values per run — every power of two and of ten with both neighbours, subnormals, 2^53 and beyond, integers, decimal fractions, 15/16/17-digit values, the %g thresholds, random bit patterns — equal to strconv's byte for byte, and c06.cast string = STRING(value) by direct call and through SELECT text) (texts read as numbers are INSIDE the model since Model/ParseFloat.lean: option.TrimSpace on arbitrary bytes incl. the Unicode White_Space runes, strconv.ParseInt, strconv.ParseFloat with special values, decimal and hexadecimal mantissas, the exponent clamp, underscoreOK, correct rounding to binary64, overflow = NULL; theorems int_text_float_agrees — every text ParseInt accepts as i is accepted by ParseFloat as float64(i), so the integer and the float rung of the ladder agree —, text_profile_int_float, cast_integer_text, cast_float_text; tied by stream op c06.sflt: ToIntegerStrictly / ToFloat / ToInteger / ToBoolean / Ternary of 8000+ spellings per run incl. rounding boundaries, denormals, overflow, hex floats, underscores, Unicode spaces, mutations) (the comparison core of lib/value/comparison.go is TRANSLATED into Lean on every run by extract/cmpfacts — compareInteger, compareFloat, the datetime / boolean / string rungs and the ladder order of CompareCombinedly, the six operators as functions of its result, the dispatch of Compare, Equivalent, the order of Identical — and proved equal to the model: gen_compareInteger_eq, gen_compareFloat_eq, gen_rung*_eq, cmp_eq_gen, gen_ops_eq_model, gen_dispatch, gen_equivalent_shape, gen_identical_ladder) Lean 4 theorems over a model of the comparison ladder, ternary logic, BETWEEN/IN/ANY/ALL/IS/CASE and arithmetic, for all coercion profiles and all lists (incl. the empty set a sub-query can produce: any_empty / all_empty), exactness of the float image of integers and of float +, -, * on integers below 2^53 (float_int_*_agree), casts; model tied to /repo by a differential correspondence run (direct library calls and SELECT text) on every run",
     "design_ref": "DESIGN.md section 5, C06",
-    "note": "trusted: Lean kernel (axioms propext, Classical.choice, Quot.sound only), harness + driver, Go stdlib conversions (enter as profiles), IEEE-754 hardware (FloatOps parameter)",
+    "note": "trusted: Lean kernel (axioms propext, Classical.choice, Quot.sound only), harness + driver, IEEE-754 hardware (FloatOps parameter); strconv.ParseInt / ParseFloat / ParseBool / FormatInt / FormatFloat are model functions (Model/Text, ParseFloat, FormatFloat) whose equality with the Go functions is established by correspondence on every run, not by proof over the Go source; time.Parse enters as the dt? field of text profiles where the model does not compute it; FVal.fin n also has inhabitants that are no binary64 value — the round-trip theorems carry the hypothesis FVal.IsDouble (every value of the stream satisfies it), injectivity and the byte repertoire hold without it",
     "technique": "Lean 4 machine-checked proof over a hand-written model + differential correspondence with the Go implementation",
 }
 
@@ -13,10 +13,11 @@ def run(run):
     q = run.tier == "quick"
     run.assumptions += [
         "strings enter the model with the coercion profile the real value.To* functions report (theorems hold for all profiles)",
+        "the model's strconv.FormatFloat (FF.fmtF / fmtG / fmtE) and ParseFloat are compared with the Go functions by correspondence (c06.ffmt, c06.sflt) on every run, not derived from the Go source; the round trip is proved for FVal.IsDouble values (all that Go can hold)",
         "float + - * / are a FloatOps parameter in the theorems; the driver's round-to-nearest-even instance is validated against the hardware by stream c06 (arith, prof)",
     ]
     run.regen("cmpfacts", ["go", "run", "-C", "extract/cmpfacts", "."], "Csvq/Gen/CmpFacts.lean")
-    run.obligations_for(["Csvq.Props.C06"])
+    run.obligations_for(["Csvq.Props.C06", "Csvq.Props.C06Fmt"])
     run.stream("c06", 4000 if q else 200000)
     if not q:
         for k in range(1, 4):
@@ -25,5 +26,5 @@ def run(run):
         level="proof",
         rule="operand pairs/triples/lists drawn from every value class of C06 (int64 bounds, +-0, NaN, +-Inf, subnormals, 2^53+-1, padded/cased numeric, boolean and datetime strings, plain strings, booleans, ternaries, datetimes, NULL), by direct library call and through SELECT text; non-trivial = distinct (stream, operand classes, result) signature",
         trusted_base=BASE_TRUST + ["coercion profiles: results of strconv.ParseInt/ParseFloat/ParseBool and time.Parse are taken from the implementation"],
-        checker_cmd="cd /verif/lean && lake build Csvq.Props.C06 && lake env lean <#print axioms for every theorem>",
+        checker_cmd="cd /verif/lean && lake build Csvq.Props.C06 Csvq.Props.C06Fmt && lake env lean <#print axioms for every theorem>",
     )
